@@ -379,11 +379,16 @@ def concretise(case, seed):
     rng.shuffle(roots)
     for r in roots:
         emit(r, 0)
-    hdr = [('version', "1.%d.%d" % (rng.randint(0, 3), rng.randint(0, 9))), ('library', case["hdr"]["library"][0]),
-           ('withStandard', case["hdr"]["withStandard"]), ('unmerged', "True")]
+    std = case.get("mode") == "standard"
+    if std:
+        hdr = [('version', "9.%d.%d" % (rng.randint(0, 3), rng.randint(0, 9)))]
+    else:
+        hdr = [('version', "1.%d.%d" % (rng.randint(0, 3), rng.randint(0, 9))), ('library', case["hdr"]["library"][0]),
+               ('withStandard', case["hdr"]["withStandard"]), ('unmerged', "True")]
     version = hdr[0][1]
     head = "HED " + " ".join('%s="%s"' % kv for kv in hdr)
-    out = [head, "", "'''Prologue'''", "Library schema generated for round-trip checking.", "", "!# start schema"] + lines
+    rest = _G["std_rest"] if std else {"unitModifier": [], "valueClass": [], "attribute": [], "property": []}
+    out = [head, "", "'''Prologue'''", "Schema generated for round-trip checking.", "", "!# start schema"] + lines
     out += ["", "!# end schema", "", "'''Unit classes'''"]
     own_uc = {u["name"]: u for u in case["ucs"]}
     hosts = sorted({x["uclass"] for x in case["units"]} | set(own_uc))
@@ -397,13 +402,23 @@ def concretise(case, seed):
         for u in [u for u in case["units"] if u["uclass"] == ucn]:
             x = _extras(u["attrs"], dd("Units", u))
             out.append("** %s%s" % (u["name"], " <nowiki>%s</nowiki>" % x if x else ""))
-    out += ["", "'''Unit modifiers'''", "", "'''Value classes'''"]
+    def fixed(sect):          # entries of the other sections taken over unchanged from the partner's XML (stand-alone mode)
+        for e in rest[sect]:
+            x = _extras(e["attrs"], e["desc"])
+            out.append("* %s%s" % (e["name"], " <nowiki>%s</nowiki>" % x if x else ""))
+    out += ["", "'''Unit modifiers'''"]
+    fixed("unitModifier")
+    out += ["", "'''Value classes'''"]
     for o in case["others"]:
         if o["sect"] == "valueClass":
             x = _extras(o["attrs"], dd("ValueClasses", o))
             out.append("* %s%s" % (o["name"], " <nowiki>%s</nowiki>" % x if x else ""))
-    out += ["", "'''Schema attributes'''", "", "'''Properties'''", "", "'''Epilogue'''", "Generated; see specs/SchemaStore.tla.", "",
-            "!# end hed", ""]
+    fixed("valueClass")
+    out += ["", "'''Schema attributes'''"]
+    fixed("attribute")
+    out += ["", "'''Properties'''"]
+    fixed("property")
+    out += ["", "'''Epilogue'''", "Generated; see specs/SchemaStore.tla.", "", "!# end hed", ""]
     return {"text": "\n".join(out), "descs": descs, "kinds": {"%s:%s" % k: v for k, v in kinds.items()}, "version": version}
 
 
@@ -458,7 +473,7 @@ def judge_xml(path, merged, case, conc):
         return [("xml:unreadable:%s" % ("merged" if merged else "unmerged"), "saved XML cannot be read: %s" % _exc(ex))]
     view = case["xmlMerged" if merged else "xmlUnmerged"]
     exp = _expected_rows(view, conc["descs"])
-    partner = _G["partner"]
+    partner = _G["std_partner"] if case.get("mode") == "standard" else _G["partner"]
     prob = []
     ms = "merged" if merged else "unmerged"
     h = view["hdr"]
@@ -470,8 +485,11 @@ def judge_xml(path, merged, case, conc):
     return prob
 
 
-def project(s):
-    """library entries of a real schema object in the vocabulary of the specification"""
+def project(s, lib_only=True, value_classes=None):
+    """(library) entries of a real schema object in the vocabulary of the specification"""
+    def own(e):
+        return "inLibrary" in e.attributes or not lib_only
+
     def pairs(attrs):
         out = []
         for k, v in attrs.items():
@@ -479,7 +497,7 @@ def project(s):
         return sorted(out)
     tags = {}
     for e in s.tags.all_names.values():
-        if "inLibrary" not in e.attributes:
+        if not own(e):
             continue
         val = e.name.endswith("/#")
         sid = e.short_tag_name + "/#" if val else e.short_tag_name
@@ -489,11 +507,11 @@ def project(s):
         else:
             parent = par.short_tag_name if par is not None else ""
         tags[sid] = {"parent": parent, "attrs": pairs(e.attributes), "desc": e.description or "", "val": val}
-    ucs = {e.name: {"attrs": pairs(e.attributes), "desc": e.description or ""} for e in s.unit_classes.values() if "inLibrary" in e.attributes}
+    ucs = {e.name: {"attrs": pairs(e.attributes), "desc": e.description or ""} for e in s.unit_classes.values() if own(e)}
     units = {e.name: {"uclass": e.unit_class_entry.name, "attrs": pairs(e.attributes), "desc": e.description or ""}
-             for e in s.units.values() if "inLibrary" in e.attributes}
+             for e in s.units.values() if own(e)}
     others = {"valueClass:" + e.name: {"attrs": pairs(e.attributes), "desc": e.description or ""}
-              for e in s.value_classes.values() if "inLibrary" in e.attributes}
+              for e in s.value_classes.values() if (own(e) if lib_only else e.name in (value_classes or ()))}
     return {"tags": tags, "ucs": ucs, "units": units, "others": others}
 
 
@@ -531,7 +549,9 @@ def execute(item):
             res["drift"].append(("vehicle-noncompliant", "generated schema has compliance issues %s" % sorted({e["code"] for e in errs})))
             return res
         # the loaded object against the specification's state (loader side of the model)
-        got, want = project(s), _state_rows(body, conc["descs"])
+        std = case.get("mode") == "standard"
+        vcs = [o["name"] for o in case["others"] if o["sect"] == "valueClass"]
+        got, want = project(s, not std, vcs), _state_rows(body, conc["descs"])
         for sec in got:
             if got[sec] != want[sec]:
                 ks = sorted(k for k in set(got[sec]) | set(want[sec]) if got[sec].get(k) != want[sec].get(k))
@@ -545,14 +565,15 @@ def execute(item):
             res["saves"] += 9
             return res
         kinds = {tuple(k.split(":", 1)): v for k, v in conc["kinds"].items()}
-        prob, paths, objs = round_trips(s, os.path.join(work, "s"), [True, False], FORMATS, kinds)
+        mopts = [True] if std else [True, False]
+        prob, paths, objs = round_trips(s, os.path.join(work, "s"), mopts, FORMATS, kinds)
         res["problems"] += prob
-        res["saves"] += 6
+        res["saves"] += 3 * len(mopts)
         # independent of HedSchema.__eq__: the library entries of every reloaded object are the specification's state
         for (merged, fmt), r in sorted(objs.items()):
             if any(k.split(":")[1:3] == [fmt, "merged" if merged else "unmerged"] for k, _ in prob):
                 continue
-            gr = project(r)
+            gr = project(r, not std, vcs)
             for sec in gr:
                 if gr[sec] != want[sec]:
                     ks = sorted(k for k in set(gr[sec]) | set(want[sec]) if gr[sec].get(k) != want[sec].get(k))
@@ -564,14 +585,14 @@ def execute(item):
                                             "schema reloaded from the %s %s file has %s %r = %s, the original has %s"
                                             % ("merged" if merged else "unmerged", fmt, sec, ks[0], a, b)))
                     break
-        for merged in (True, False):
+        for merged in mopts:
             p = paths.get((merged, "xml"))
             if p:
                 res["problems"] += judge_xml(p, merged, case, conc)
         # second generation: a schema that was LOADED FROM A MERGED file is saved again (header says merged)
         fmt2 = FORMATS[item["id"] % 3]
         r = objs.get((True, fmt2))
-        if r is not None and r == s and not res["problems"]:
+        if r is not None and r == s and not res["problems"] and not std:
             p2, _, _ = round_trips(r, os.path.join(work, "t"), [False], [FORMATS[(item["id"] // 3) % 3]], kinds)
             res["problems"] += [("gen2:" + k, "schema reloaded from the merged %s file, then " % fmt2 + t) for k, t in p2]
             res["saves"] += 1
@@ -590,6 +611,12 @@ def _init_globals():
     paths = dict(facts.bundled())
     _G["partner"] = xml_view(paths[PARTNER])
     _G["score_path"] = paths["score_2.0.0"]
+    # stand-alone mode: everything outside the specification's slice that a standard schema needs (attribute and property
+    # definitions, unit modifiers, the other value classes) is taken over from the partner's XML unchanged
+    modeled = {"valueClass:numericClass", "valueClass:textClass"}
+    rest = {k: e for k, e in _G["partner"]["others"].items() if k not in modeled}
+    _G["std_partner"] = {"tags": {}, "ucs": {}, "units": {}, "others": rest}
+    _G["std_rest"] = {sect: [e for e in rest.values() if e["sect"] == sect] for sect in ("unitModifier", "valueClass", "attribute", "property")}
 
 
 def _extra_coverage(ctx, r):
@@ -720,6 +747,9 @@ def _run_rest(ctx, pool, rb, rm):
         rs = ctx.tlc("MC_SchemaStore", "MC_SchemaStore_sim.cfg", workers=1, mode="simulate", simulate="num=%d" % nsim, depth=6,
                      seed=ctx.seed + 1, timeout=3000, label="generation: random edit sequences of length <= 5 (simulation)")
         deep = [j for j in rs.json_lines if "edits" in j and len(j["edits"]) >= 3]
+        rstd = ctx.tlc("MC_SchemaStore", "MC_SchemaStore_genstd.cfg", workers=1, timeout=3000,
+                       label="generation: stand-alone standard schema, every schema reachable by <= 2 edits")
+        std_cases = [j for j in rstd.json_lines if "edits" in j]
     finally:
         for m in made:
             os.remove(os.path.join(tlc.SPECS, m))
@@ -734,8 +764,10 @@ def _run_rest(ctx, pool, rb, rm):
             uniq_deep.append(j)
     n_shallow = 130 if quick else 1500
     n_deep = 60 if quick else 1500
-    chosen = _select(cases, n_shallow, ctx.seed) + uniq_deep[:n_deep]
-    ctx.note("generated_schemas_available", {"exhaustive_le2_edits": len(cases), "simulated_ge3_edits": len(uniq_deep)})
+    n_std = 40 if quick else 700
+    chosen = _select(cases, n_shallow, ctx.seed) + uniq_deep[:n_deep] + _select(std_cases, n_std, ctx.seed + 7)
+    ctx.note("generated_schemas_available", {"exhaustive_le2_edits": len(cases), "simulated_ge3_edits": len(uniq_deep),
+                                             "standalone_le2_edits": len(std_cases)})
     ctx.exhaustive = False
     items = []
     for i, c in enumerate(chosen):
